@@ -271,7 +271,7 @@ ben2("C07", "c07-benign-open-order", VTTW, [("      if is_bold:\n        self._p
 
 # ---------------------------------------------------------------------------------------- C04
 ELS = "ttconv/imsc/elements.py"
-brk("C04", "c04-chained-first-wins", ELS, "        style_ref = style_element.style_refs.pop()\n", "        style_ref = style_element.style_refs.pop(0)\n", "PRI-style")
+brk("C04", "c04-chained-first-wins", ELS, "        style_ref = style_element.style_refs.pop()\n", "        style_ref = style_element.style_refs.pop(0)\n", "FIN-chain")
 brk("C04", "c04-ref-order", ELS, "      for style_ref in reversed(imsc_attr.StyleAttribute.extract(xml_elem)):", "      for style_ref in imsc_attr.StyleAttribute.extract(xml_elem):", "PRI-style")
 brk("C04", "c04-ref-overrides", ELS, "          if not self.model_element.has_style(model_prop):\n            self.model_element.set_style(model_prop, value)", "          self.model_element.set_style(model_prop, value)", "PRI-style")
 brk("C04", "c04-lang-parent-wins", ELS, "      self.lang = lang_attr_value if lang_attr_value is not None else parent_ctx.lang", "      self.lang = parent_ctx.lang if parent_ctx.lang is not None else lang_attr_value", "INH")
@@ -449,7 +449,7 @@ brk("C03", "c03-position-right-edge-from-container", ISD, "          value=100 -
 ben("C03", "c03-benign-position-right-edge-regrouped", ISD, "          value=100 - extent.width.value - h_offset.value,\n", "          value=(100 - extent.width.value) - h_offset.value,\n")
 brk("C16", "c16-position-reads-origin", ISD, "      extent : styles.ExtentType = element.get_style(styles.StyleProperties.Extent)\n\n      assert extent.height.units", "      extent : styles.ExtentType = element.get_style(styles.StyleProperties.Extent)\n      old_origin = element.get_style(styles.StyleProperties.Origin)\n      if old_origin.x is None:\n        return\n\n      assert extent.height.units", "ORD-compute")
 brk("C10", "c10-parser-not-closed", SRTR, "        parser = _TextParser(current_p, line_index)\n        parser.feed(subtitle_text)\n        parser.close()\n", "        _TextParser(current_p, line_index).feed(subtitle_text)\n", "PAIR-close")
-brk2("C08", "c08-control-field2-has-channel", CC + "control_codes.py", [("from ttconv.scc.codes import SccCode\n", "from ttconv.scc.codes import SccCode, SccChannel\n"), ("  def get_values(self) -> Tuple[int, int, int, int]:", "  def get_channel(self, value: int):\n    if value in (self._channel_1, self._channel_1_field_2):\n      return SccChannel.CHANNEL_1\n    if value in (self._channel_2, self._channel_2_field_2):\n      return SccChannel.CHANNEL_2\n    return None\n\n  def get_values(self) -> Tuple[int, int, int, int]:")], "FIN-channel")
+brk2("C08", "c08-control-field2-has-channel", CC + "control_codes.py", [("from ttconv.scc.codes import SccCode\n", "from ttconv.scc.codes import SccCode, SccChannel\n"), ("  def get_values(self) -> typing.Tuple[int, int, int, int]:", "  def get_channel(self, value: int):\n    if value in (self._channel_1, self._channel_1_field_2):\n      return SccChannel.CHANNEL_1\n    if value in (self._channel_2, self._channel_2_field_2):\n      return SccChannel.CHANNEL_2\n    return None\n\n  def get_values(self) -> typing.Tuple[int, int, int, int]:")], "FIN-channel")
 brk("C17", "c17-line-skips-channel-2-only", SL, "        if caption_channel is not SccChannel.CHANNEL_1:", "        if caption_channel is SccChannel.CHANNEL_2:", "ORD-channel")
 
 ben("C04", "c04-benign-parse-length-memo", IU, "def parse_length(attr_value: str) -> typing.Tuple[float, str]:\n  \'\'\'Parses the TTML length in `attr_value` into a (length, units) tuple\'\'\'\n\n  m = _LENGTH_RE.match(attr_value)\n\n  if m:\n\n    return (float(m.group(1)), m.group(2))\n",
